@@ -715,6 +715,45 @@ func streamCHist(c *Ctx) {
 				c.violate("C09", "", fmt.Sprintf("after the splitter history [%s] the sequence declares %d bytes in %d shares; %d length-prefixed bytes were written (%d shares needed)", strings.TrimSpace(desc), sl, len(sh), total, share.CompactSharesNeeded(uint32(total))), "", c.caseOps)
 			}
 		}
+		// C11 after any history: every sub-range of the exported shares parses to exactly the writes that begin
+		// and are complete inside it
+		if err == nil && len(writes) > 0 && len(sh) > 1 && exportBetween {
+			n := len(sh)
+			T := 0
+			starts := make([]int, len(writes))
+			ends := make([]int, len(writes))
+			for wi, t := range writes {
+				starts[wi] = T
+				T += uvarintLen(len(t)) + len(t)
+				ends[wi] = T
+			}
+			for lo := 0; lo < n; lo++ {
+				for hi := lo + 1; hi <= n; hi++ {
+					if lo == 0 && hi == n {
+						continue
+					}
+					if n > 6 && !(hi-lo <= 2 || lo == 0 || hi == n) && !c.rng.Chance(1, 6) {
+						continue
+					}
+					o, got, _ := safeParseTxs(sh[lo:hi])
+					c.emit(fmt.Sprintf("sh parsetxs %d %d", lo, hi), o)
+					c.oracle()
+					bLo, bHi := compactOff(lo), compactOff(hi)
+					if bHi > T {
+						bHi = T
+					}
+					var want [][]byte
+					for wi := range writes {
+						if starts[wi] >= bLo && ends[wi] <= bHi {
+							want = append(want, writes[wi])
+						}
+					}
+					if !eqTxs(got, want) {
+						c.violate("C11", "", fmt.Sprintf("after the splitter history [%s] ParseTxs(shares[%d:%d]) returned %d txs; %d writes begin and are complete inside the range", strings.TrimSpace(desc), lo, hi, len(got), len(want)), o, c.caseOps)
+					}
+				}
+			}
+		}
 		// oracle C14b: fresh splitter fed only the writes
 		c.oracle()
 		ref := share.NewCompactShareSplitter(ns, 0)
